@@ -102,14 +102,16 @@ def run_history(ctx, mr, cfg, closes, nodes_cache):
         closed_names = set()
         caseinfo = dict(cfg=[kind, source, closefd], closes=closes)
 
+        sweep_no = [0]
+
         def sweep():
+            sweep_no[0] += 1
             for hn in handles:
                 h = objs[names.index(hn)]
-                try:
-                    h.seek(0)
-                except Exception:
-                    pass
-                res = {u: CC.use(h, u) for u in CC.USES}
+                # no call of ours precedes the uses, and the order of the uses rotates: a closed-check that lets the FIRST call after a
+                # close through must not be hidden by a positioning call
+                k = (sweep_no[0] + handles.index(hn)) % len(CC.USES)
+                res = {u: CC.use(h, u) for u in CC.USES[k:] + CC.USES[:k]}
                 # model ops: tell/seek0 shallow, read1 deep
                 ops.append(('s', idx[hn]))
                 ops.append(('d', idx[hn]))
